@@ -31,6 +31,8 @@ def num(r):
         s = s[1:]                              # ".5"
     elif u < 0.2:
         s = "0" * r.randrange(1, 3) + s        # leading zeros
+    if r.random() < 0.03:
+        s = "%d.%s" % (r.randrange(10 ** 9), "".join(r.choice("0123456789") for _ in range(12)))   # > 15 significant digits
     if r.random() < 0.4:
         s = "-" + s
     return s
